@@ -57,7 +57,7 @@ func scanWants(prop string, o *Obligation) bool {
 			return true
 		case strings.HasPrefix(o.Class, "pre:"):
 			return true
-		case o.Class == "post:0", o.Class == "post:1":
+		case o.Class == "post:0", o.Class == "post:1", o.Class == "post:4", o.Class == "progress":
 			return true
 		}
 		return false
